@@ -687,7 +687,7 @@ fn long_seqs(r: &Runner, what: &str, bits: usize, ops: &'static [Op], product: b
     let n = nlimbs(bits);
     let lens: Vec<usize> = {
         let mut l: Vec<usize> = (4..=20).collect();
-        l.extend([23, 24, 25, 31, 32, 33, 47, 48, 49, 63, 64, 65, 100, 127, 128, 129, 257]);
+        l.extend([23, 24, 25, 31, 32, 33, 47, 48, 49, 63, 64, 65, 100, 127, 128, 129, 255, 256, 257, 511, 512, 513, 767, 768, 1024, 1025]);
         l
     };
     let word = |w: u64| { let mut v = vec![0u64; n]; if n > 0 { v[0] = w; let last = n - 1; v[last] &= mask(bits); } v };
@@ -707,13 +707,13 @@ fn long_seqs(r: &Runner, what: &str, bits: usize, ops: &'static [Op], product: b
             Box::new(|i| word(0x9E37_79B9_7F4A_7C15u64.wrapping_mul(i as u64 + 1) | 1)),
         ];
         for (k, p) in pats.iter().enumerate() {
-            if product && len > 65 && k != 1 && k != 6 {
+            if (product && len > 65 && k != 1 && k != 6) || (!product && len > 300 && !matches!(k, 2 | 3 | 4 | 7)) {
                 continue; // long products of large factors are all zero or all alike: keep the informative ones
             }
             seqs.push(V::L((0..len).map(|i| vu(&p(i))).collect()));
         }
     }
-    r.universe(&format!("{what}: {} sequences of length 4..=20, 23..25, 31..33, 47..49, 63..65, 100, 127..129, 257 in 8 patterns", seqs.len()), bits, seqs.len(), |i, l| {
+    r.universe(&format!("{what}: {} sequences of length 4..=20, 23..25, 31..33, 47..49, 63..65, 100, 127..129, 255..257, 511..513, 767, 768, 1024, 1025 in 8 patterns", seqs.len()), bits, seqs.len(), |i, l| {
         l.states(1);
         for &op in ops {
             exec(l, bits, op, &[seqs[i].clone()]);
@@ -856,7 +856,49 @@ fn derived_div(bits: usize, base: &[Limbs]) -> Vec<(Limbs, Limbs)> {
     out
 }
 
+/// GIANT width (65 536 bits): numerators and divisors of every significant length around the powers of two (a fixed-size
+/// scratch buffer or a length kept in a narrow type is sized for typical widths), dense limbs, normalised and
+/// un-normalised divisors.
+fn c03_giant(r: &Runner) {
+    if SWEEP {
+        return;
+    }
+    let bits = 65_536usize;
+    let n = nlimbs(bits);
+    let g = golden(n + 8);
+    let lens: Vec<usize> = vec![1, 2, 3, 4, 5, 31, 32, 33, 63, 64, 65, 127, 128, 129, 130, 131, 255, 256, 257, 511, 512, 513, 1023, 1024];
+    let mk = |len: usize, top: u64, salt: usize| -> Limbs {
+        let mut v = vec![0u64; n];
+        for i in 0..len {
+            v[i] = g[(i + salt) % g.len()];
+        }
+        v[len - 1] = top;
+        v
+    };
+    let mut cases: Vec<(Limbs, Limbs)> = vec![];
+    for &ln in &lens {
+        for &ld in &[1usize, 2, 3, 5, 64, 65, 128, 129] {
+            if ld > ln {
+                continue;
+            }
+            for (tn, td) in [(u64::MAX, 1u64), (1, u64::MAX), (0x1234_5678_9abc_def0, 0x0fed_cba9_8765_4321), (1 << 63, (1 << 63) + 1)] {
+                cases.push((mk(ln, tn, 1), mk(ld, td, 5)));
+            }
+        }
+    }
+    r.universe(&format!("GIANT U{bits}: {} (numerator, divisor) pairs with significant lengths around every power of two up to the width", cases.len()), bits, cases.len(), |i, l| {
+        let (a, b) = (vu(&cases[i].0), vu(&cases[i].1));
+        l.states(1);
+        for &op in &[Op::div_rem, Op::div_vv, Op::rem_rr, Op::div_ceil, Op::checked_rem] {
+            exec(l, bits, op, &[a.clone(), b.clone()]);
+        }
+        exec(l, bits, Op::reduce_mod, &[a.clone(), b.clone()]);
+        exec(l, bits, Op::mul_mod, &[a.clone(), a.clone(), b.clone()]);
+    });
+}
+
 fn c03(r: &Runner) {
+    c03_giant(r);
     r.set_rule("S(B)^2 including d = 0; (L/R/P(B))^2 at every edge width (divisors of every limb length, normalised and un-normalised); derived universe n = q*d + r + delta with q, d from the limb alphabet, r in {0, 1, d-1}, delta in {-1,0,1}. non-trivial = n < d, or divisor of >= 3 limbs with un-normalised top limb, or multi-limb divisor with non-zero remainder; the hook counters state how many executions reached each correction branch");
     for bits in 0..=small_max(r, 9, 11) {
         let u = small_all(bits);
